@@ -259,8 +259,10 @@ def check(case, r, tier):
                 else:
                     good.append((key, text, b"p" + e + b"q"))
         good.append(((cs, "esc", "backslash-newline"), '.ascii "ab\\\ncd"', b"abcd"))
-        for esc in ("q", "z", "0", "e", "xg1", "x1z", "x"):
+        for esc in ("q", "z", "0", "e", "xg1", "x1z", "x", "x 41", "x\t41", "x  4 1", "x4 1", "x;41", "x\n41"):
             bad.append(((cs, "badesc", esc), '.ascii "a\\%sb"' % esc))
+        for esc in ("x 41", "x\t41"):
+            bad.append(((cs, "badesc-lit", esc), ".byte '\\%s" % esc))
     elif k == "short":
         if True:
             # multi-byte characters next to a <symbol> chunk defined later, followed by address-sensitive statements:
